@@ -289,14 +289,20 @@ for (nm, fn) in [('5_1_6', 'ref_new_repeats_5_1_6'), ('6_0_6', 'ref_new_repeats_
 
 # ------------------------------------------------------------------ C11 (sequential model: merge tree and pool initialisation)
 TREEF = ['src/merge_ska_dict.rs::build_and_merge', 'src/merge_ska_dict.rs::parallel_append', 'src/merge_ska_dict.rs::multi_append', MD + 'merge', MD + 'append']
-for (n, t, tier, tmo) in [(10, 1, 'thorough', 3600), (10, 2, 'thorough', 3600), (11, 16, 'thorough', 3600), (20, 4, 'thorough', 7200), (30, 4, 'thorough', 10800), (30, 16, 'thorough', 10800)]:
+for (n, t, tier, tmo) in [(3, 1, 'quick', 1800), (3, 4, 'quick', 1800), (10, 1, 'thorough', 3600), (10, 2, 'thorough', 3600), (11, 16, 'thorough', 3600), (20, 4, 'thorough', 7200), (30, 4, 'thorough', 10800), (30, 16, 'thorough', 10800)]:
     ob('C11.tree.n%d.t%d' % (n, t), ['C11'], 'merge_ska_dict/tree', 'tree_n%d_t%d' % (n, t), tier=tier, functions=TREEF, inst='u64', needs_parts=['merge_ska_dict/common', 'ska_dict/acc'],
        caps={'MCAP': 2, 'SCAP': 1, 'RCAP': 1, 'CCAP': 1}, models=['hashbrown', 'rayon (sequential join, pool flag)', 'indicatif'], stubs=['SkaDict::new -> dictionary provider: one symbolic (k-mer, base) entry per sample (environment stub)'],
        sym='%d samples, each with one k-mer of a 2-key universe and a symbolic base; strand mode; threads = %d' % (n, t), oracle='names in input order; every key vector = the serial table (own base in own column, 0 elsewhere)',
-       bounds='%d samples, threads=%d (merge depth %s)' % (n, t, {(10, 1): 0, (10, 2): 1, (11, 16): 1, (20, 4): 1, (30, 4): 2, (30, 16): 2}[(n, t)]), timeout=tmo, mem_gb=24, mem_expect_gb=10)
+       bounds='%d samples, threads=%d (merge depth %s)' % (n, t, {(3, 1): 0, (3, 4): 0, (10, 1): 0, (10, 2): 1, (11, 16): 1, (20, 4): 1, (30, 4): 2, (30, 16): 2}[(n, t)]), timeout=tmo, mem_gb=24, mem_expect_gb=10)
 
 for t in (1, 2):
     ob('C11.pool.map.t%d' % t, ['C11'], 'ska_ref/pool', 'map_after_build_t%d' % t, functions=['src/merge_ska_dict.rs::build_and_merge', RS + 'pseudoalignment', AW + 'write_split_kmer', AW + 'finalise'], inst='u64',
        needs_parts=['ska_ref/common'], caps={'MCAP': 2, 'SCAP': 1, 'RCAP': 1, 'CCAP': 2}, models=['hashbrown', 'ndarray', 'rayon (sequential; build_global fails the second time)', 'needletail::write_fasta'],
        stubs=['SkaDict::new -> dictionary provider (environment stub)', 'AlnWriter::write_split_kmer / finalise -> no-op (environment stub)'], sym='reference of 6 symbolic bases; two samples sharing the reference k-mer (concrete middle bases); threads = %d' % t,
        oracle='the build -> (mapped state) -> pseudoalignment sequence completes (no panic) with one aligned sequence per sample', bounds='reference of 6 bases, k=5, 2 samples', timeout=3600, mem_gb=20, mem_expect_gb=8)
+
+for (p0, p1) in [(0, 0), (0, 1), (0, 2), (0, 3), (1, 1), (1, 2), (1, 3), (2, 2), (2, 3), (3, 3)]:
+    ob('C11.merge.p%d%d' % (p0, p1), ['C11', 'C01'], 'merge_ska_dict/merge', 'merge_p%d%d' % (p0, p1), tier='quick' if (p0, p1) in ((1, 3), (0, 2), (2, 3)) else 'thorough', functions=[MD + 'merge'], inst='u64',
+       needs_parts=['merge_ska_dict/common', 'ska_dict/acc'], caps={'MCAP': 2, 'SCAP': 1, 'RCAP': 1, 'CCAP': 1}, models=['hashbrown'],
+       sym='two partial tables of one 3-sample build (sample 0 | samples 1,2) over a 2-key universe; bases symbolic; presence pattern concrete (key0=%d, key1=%d; 1=self 2=other 3=both)' % (p0, p1),
+       oracle='every sample keeps its own base for every key of the union; names of both tables survive; no other entry', bounds='3 samples, 2 keys', timeout=1500, mem_gb=12)
